@@ -78,6 +78,7 @@ def coarse(x):
     if isinstance(x, (bool, int)) or x is None:
         return x
     if isinstance(x, str):
+        x = x.split('?')[0] + '?' if '?' in x[:5] else x
         return x if len(x) < 40 else x[:40]
     if isinstance(x, dict) and 'v' in x and 'kids' in x:
         return x['v'] if x['v'] in ('-', 'absent', 'unloadable', 'lost', 'nostate', 'nofile', 'blobrec', 'badpos') else 'a-state'
